@@ -10,8 +10,10 @@
 //   * a reshape                        = the same numbers 0..N-1 enumerated by the odometer of the new shape.
 //
 // lattices (all run in every stage; --stage only selects the scalar types and the memory discipline):
-//   shape    : 1804 shapes x scalar type: full indexing, prefix views, slices, reshapes, gathers, conversions, integral
+//   shape    : 1804 shapes x scalar type x 4 storages: full indexing, prefix views, slices, reshapes
 //   large    : 40 fixed larger shapes (<= 1e5 elements) x scalar type, reduced set of views (finite list, no proof)
+//   algo     : 1804 shapes x scalar type: gathers, storage conversions, integral
+//              (algo/removeif/stack are not run when shape/large already recorded accessor violations)
 //   removeif : (n, predicate mask) x pack kind x inner width x scalar type
 //   stack    : matrix / vector 2-block (and 2x2) splits x block representation x scalar type
 // stages:
@@ -1181,14 +1183,15 @@ void check_integral(ctx_t& cx, const oracle_t& o, const tensor_mem_t<T, R>& mem)
 
 // ---------------------------------------------------------------------------------------------
 // one (shape, scalar type) case
+/// part 0: the accessors of the tensor itself (4 storages); part 1: the algorithms built on top of them
 template <class T, size_t R>
-void run_shape_rank(ctx_t& cx, const ivec& dims, const bool light)
+void run_shape_rank(ctx_t& cx, const ivec& dims, const bool light, const int part)
 {
     const auto o = make_oracle(dims, light ? R - 1 : R);
     std::array<idx_t, R> dd{};
     std::copy(dims.begin(), dims.end(), dd.begin());
 
-    cx.r.outcome(o.N == 0 ? "shape:empty" : (o.N == 1 ? "shape:singleton" : "shape:general"));
+    cx.r.outcome(std::string(part == 0 ? "shape:" : "algo:") + (o.N == 0 ? "empty" : (o.N == 1 ? "singleton" : "general")));
 
     // owning tensor (the element block belongs to Eigen), filled through the raw pointer
     tensor_mem_t<T, R> mem(dd);
@@ -1202,8 +1205,9 @@ void run_shape_rank(ctx_t& cx, const ivec& dims, const bool light)
     {
         mem.data()[c] = val<T>(c);
     }
-    check_tensor<T, R, true>(cx, "mem", o, mem, mem.data(), mem.data(), light);
+    if (part == 0)
     {
+        check_tensor<T, R, true>(cx, "mem", o, mem, mem.data(), mem.data(), light);
         const auto& cmem = mem;
         check_tensor<T, R, false>(cx, "const-mem", o, cmem, mem.data(), nullptr, light);
     }
@@ -1215,13 +1219,16 @@ void run_shape_rank(ctx_t& cx, const ivec& dims, const bool light)
     auto cmap = map_tensor(buf.cp(), dd);
     static_assert(std::is_same_v<decltype(map), tensor_map_t<T, R>>);
     static_assert(std::is_same_v<decltype(cmap), tensor_cmap_t<T, R>>);
-    check_tensor<T, R, true>(cx, "map", o, map, buf.cp(), buf.p(), light);
-    check_tensor<T, R, false>(cx, "cmap", o, cmap, buf.cp(), nullptr, light);
-    if (!buf.intact())
+    if (part == 0)
     {
-        cx.fail("memory:views", {});
+        check_tensor<T, R, true>(cx, "map", o, map, buf.cp(), buf.p(), light);
+        check_tensor<T, R, false>(cx, "cmap", o, cmap, buf.cp(), nullptr, light);
+        if (!buf.intact())
+        {
+            cx.fail("memory:views", {});
+        }
     }
-    if (!light)
+    else
     {
         check_indexed<T, R>(cx, o, mem, cmap, map);
         check_conversions<T, R>(cx, o, mem);
@@ -1242,15 +1249,15 @@ void run_shape_rank(ctx_t& cx, const ivec& dims, const bool light)
 }
 
 template <class T>
-void run_shape(ctx_t& cx, const ivec& dims, const bool light)
+void run_shape(ctx_t& cx, const ivec& dims, const bool light, const int part)
 {
     switch (dims.size())
     {
-    case 1: run_shape_rank<T, 1>(cx, dims, light); break;
-    case 2: run_shape_rank<T, 2>(cx, dims, light); break;
-    case 3: run_shape_rank<T, 3>(cx, dims, light); break;
-    case 4: run_shape_rank<T, 4>(cx, dims, light); break;
-    default: run_shape_rank<T, 5>(cx, dims, light); break;
+    case 1: run_shape_rank<T, 1>(cx, dims, light, part); break;
+    case 2: run_shape_rank<T, 2>(cx, dims, light, part); break;
+    case 3: run_shape_rank<T, 3>(cx, dims, light, part); break;
+    case 4: run_shape_rank<T, 4>(cx, dims, light, part); break;
+    default: run_shape_rank<T, 5>(cx, dims, light, part); break;
     }
 }
 
@@ -1687,7 +1694,7 @@ inline std::string run_probe(const probe_t& pr)
 // one translation unit per scalar type (compile time); the driver reaches them through this table
 struct api_t
 {
-    void (*shape)(ctx_t&, const ivec& dims, bool light);
+    void (*shape)(ctx_t&, const ivec& dims, bool light, int part);
     void (*removeif)(ctx_t&, removeif_case_t, int kind, idx_t width);
     void (*stack)(ctx_t&, stack_case_t, int repr);
 };
